@@ -7,7 +7,8 @@ import vlib
 from vlib import coq_value, coq_path, coq_hex, ji, js, jo
 
 ID = "C34"
-THEOREMS = ["C34_flagged_shape", "C34_effect_free_pure", "C34_removable_root_partial", "C34_removable_nested_partial",
+THEOREMS = ["C34_flagged_shape", "C34_effect_free_pure", "C34_removable_partial", "C34_removable_root_partial",
+            "C34_removable_nested_partial",
             "C34_removable_fallible_root_partial", "C34_object_refuted", "C34_call_arg_refuted",
             "C34_coalesce_refuted", "C34_closure_stale_refuted", "C34_example"]
 IMPORTS = ("From Coq Require Import List ZArith String.\n"
@@ -23,8 +24,8 @@ MANIFEST = {
             "with the real compiler on generated programs. Proved for all programs, states, F: a flagged expression is a literal, "
             "an object or a closure-free call of a non-side-effect function; an effect-free expression leaves event, metadata and "
             "variables untouched; deleting any set of effect-free infallible non-last statements of any blocks preserves the run; "
-            "a flagged root statement whose children are effect-free and infallible can be deleted (fallible variant: a successful "
-            "run is preserved). The full property is FALSE on the pinned tree: refutation witnesses for flagged objects / calls whose "
+            "at every flagged position (any depth) whose flagged expression has effect-free infallible children the statement can "
+            "be deleted (root-level fallible variant: a successful run is preserved). The full property is FALSE on the pinned tree: refutation witnesses for flagged objects / calls whose "
             "children assign or delete (D10), flagged `f!()` calls under `??`, and literals flagged after a closure call although "
             "their value is used. The oracle deletes every flagged span from the source text, recompiles and compares runs.",
     "note": "Partial: the removal theorems need the flagged expression's children to be effect-free (the three refuted classes "
@@ -365,12 +366,28 @@ def crun(r):
     return "(%s, %s, %s)" % (cv.coq_iout(r["result"]), coq_value(r["event"]), coq_value(r["meta"]))
 
 
+def in_domain(ast):
+    """the model's domain: a non-empty program without empty statement lists (the shrinker can produce them)"""
+    def ok(e):
+        k = e[0]
+        if k == "block" and not e[1]:
+            return False
+        if k == "if" and (not e[1] or not e[2] or (e[3] is not None and not e[3])):
+            return False
+        if k == "closure" and not e[5]:
+            return False
+        return all(ok(c) for c in children(e))
+    return bool(ast) and all(ok(e) for e in ast)
+
+
 def to_coq(case, out):
     if case.get("kind") == "table":
         return "CTable [%s]" % "; ".join(cid(n) for n in case["names"])
     if out.get("compile") != "ok":
         if out.get("compile") == "panic":
             raise ValueError("compiler panic")
+        return "CSkip"
+    if not in_domain(case["ast"]):
         return "CSkip"
     flags = ["(%s, %s)" % (cpos(w["pos"]), WCLS[w["cls"]]) for w in out["warnings"] if w["cls"] in WCLS]
     # a warning of a class the model does not know is a disagreement
